@@ -34,7 +34,25 @@ type state struct {
 	// writers that have called Lock and are waiting: like sync.RWMutex, a pending Lock keeps new
 	// readers out (so a goroutine that read-locks recursively can deadlock with a writer in between)
 	writersWaiting int
+	// number of write-lock releases so far: readers that were already waiting when a writer released
+	// the lock are admitted before a writer that asks afterwards (sync.RWMutex hands the lock to the
+	// readers that queued up during a write)
+	releases int
 }
+
+// readReq is one pending RLock call.
+type readReq struct {
+	st  *state
+	gen int // st.releases when the request was made
+}
+
+//go:norace
+func (r *readReq) CanGrant(int) bool {
+	return !r.st.writer && (r.st.writersWaiting == 0 || r.gen < r.st.releases)
+}
+
+//go:norace
+func (r *readReq) Grant(int) { r.st.readers++ }
 
 //go:norace
 func (s *state) CanGrant(mode int) bool {
@@ -118,6 +136,7 @@ func (m *RWMutex) Unlock() {
 	real.Unlock()
 	if simrt.StateLock() {
 		st.writer = false
+		st.releases++
 		simrt.StateUnlock()
 		simrt.LockReleased(st)
 	}
@@ -126,7 +145,13 @@ func (m *RWMutex) Unlock() {
 //go:norace
 func (m *RWMutex) RLock() {
 	m.fresh()
-	if simrt.LockAcquire(m.st, 1, "ssync.RWMutex.RLock") {
+	st := m.st
+	gen := 0
+	if simrt.StateLock() {
+		gen = st.releases
+		simrt.StateUnlock()
+	}
+	if simrt.LockAcquireVia(&readReq{st, gen}, st, 1, "ssync.RWMutex.RLock") {
 		UsedLocks++
 	}
 	m.real.RLock()
